@@ -90,6 +90,9 @@ def update_args_infer_typ_sqlalchemy(_param, args, name, nullable, x_typ_sql):
             parsed_typ.value.id
         )
         val = cdd.shared.ast_utils.get_value(parsed_typ.slice)
+        if isinstance(val, str):
+            # `Literal['a']`: a single member is not wrapped in a `Tuple`
+            val = Tuple(elts=[parsed_typ.slice], ctx=Load())
         (
             args.append(
                 Call(
